@@ -258,6 +258,7 @@ def check(src, kind):
     prev_stop = 1 if src.startswith("﻿") else 0
     lit_cursor = 0
     err_names = {}
+    err_recs = []
     for e in errs:
         if not (isinstance(e, list) and len(e) == len(EF)):
             finding("C20.shape|error-arity", "error record is not a %d-array: %r" % (len(EF), e), src)
@@ -271,16 +272,7 @@ def check(src, kind):
             finding("C20.enum|error_kind", "error_kind %r is not a member of ErrorKind" % rec["error_kind"], src)
         if rec["last_token_index"] is not None:
             err_names.setdefault(rec["last_token_index"], []).append(ERROR_KINDS.get(rec["error_kind"], "?"))
-        co = rec["at_char_offset"]
-        if not (0 <= co <= n):
-            finding("C20.error|char-offset-range", "error char offset %r outside the source" % co, src)
-        else:
-            if len(src[:co].encode("utf-8")) != rec["at_byte_offset"]:
-                finding("C20.error|byte-vs-char", "error byte offset %r does not match char offset %r" % (rec["at_byte_offset"], co), src)
-            if (rec["on_line"], rec["at_column"]) != (line_at[co], co - line_start[co]):
-                finding("C20.error|line-col", "error at char %d: (%d,%d) expected (%d,%d)" % (
-                    co, rec["on_line"], rec["at_column"], line_at[co], co - line_start[co]), src)
-        count("errors_checked")
+        err_recs.append(rec)
     for i, t in enumerate(toks):
         if not (isinstance(t, list) and len(t) == len(TF)):
             finding("C20.shape|token-arity", "token record is not a %d-array: %r" % (len(TF), t), src)
@@ -351,6 +343,17 @@ def check(src, kind):
                 finding("C20.payload-text|%s|%s" % ("MACRO_STRING" if tname == "MACRO_STRING" else "quoted", cls),
                         "token %d %s text %r payload %r expected %r" % (i, tname, text[:40], val, want), src)
         count("tokens_checked")
+    for rec in err_recs:
+        co = rec["at_char_offset"]
+        if not (0 <= co <= n):
+            finding("C20.error|char-offset-range", "error char offset %r outside the source" % co, src)
+        else:
+            if len(src[:co].encode("utf-8")) != rec["at_byte_offset"]:
+                finding("C20.error|byte-vs-char", "error byte offset %r does not match char offset %r" % (rec["at_byte_offset"], co), src)
+            if (rec["on_line"], rec["at_column"]) != (line_at[co], co - line_start[co]):
+                finding("C20.error|line-col", "error at char %d: (%d,%d) expected (%d,%d)" % (
+                    co, rec["on_line"], rec["at_column"], line_at[co], co - line_start[co]), src)
+        count("errors_checked")
     if prev_stop != n:
         finding("C20.tiling", "tokens end at %d, source has %d code points" % (prev_stop, n), src)
     if lit_cursor != len(lit):
